@@ -29,7 +29,21 @@ Inductive dtev :=
     (* the destination of an online copy taken from the root of [epoch], opened as an index *)
 | XDirBegin                                    (* a directory listing starts ... *)
 | XDirEnd (ids : list Z)                       (* ... and returned these segment files *)
-| XQuiescent (ids : list Z).                   (* directory listing once all background work has settled *)
+| XQuiescent (ids : list Z)                    (* directory listing once all background work has settled *)
+| XSubmit (tag : Z) (ops iops : list (Z * option Z))
+    (* the harness is about to submit the batch tagged [tag]: its Index/Delete calls and its
+       SetInternal/DeleteInternal calls (tag key included) in call order, as GENERATED - the
+       introducer event carrying that tag must describe exactly this batch *)
+| XObserveInt (ints : list (Z * option Z))     (* GetInternal for every key of the universe, as the implementation shows it now *)
+| XRollbackPoints (pts : list (Z * list (Z * option Z)))
+    (* scorch.RollbackPoints on the closed index, in the order returned: per point its epoch and
+       RollbackPoint.GetInternal for every key of the universe *)
+| XPointState (epoch : Z) (docs : list (Z * option Z)) (ints : list (Z * option Z))
+    (* a copy of the closed index was rolled back to the point of [epoch] and opened: Document(id)
+       for the whole universe and GetInternal for every key *)
+| XPointWrite (epoch : Z) (newsid : Z) (ops : list (Z * option Z)) (docs : list (Z * option Z)).
+    (* ... then one batch (Index/Delete calls [ops]) was written to that copy; the introducer
+       reported the new segment id [newsid] (0: no new segment); Document(id) afterwards *)
 
 Definition tev_event (s : st) (t : tev) : option event :=
   match t with
@@ -48,7 +62,39 @@ Definition st_eqb_root (a b : st) : bool := proj_eqb (root a) (project (root b))
    both possibilities. *)
 Record xs := mkXs { x_d : dstate; x_eff : list batch; x_tags : list (Z * nat);
                     x_ci : bool; x_pi : option (list Z);
-                    x_req : list Z   (* files that had to exist when the current directory listing began *) }.
+                    x_req : list Z;  (* files that had to exist when the current directory listing began *)
+                    x_ieff : list (list (Z * option Z));   (* internal ops of the batches in effect (parallel to x_eff) *)
+                    x_sub : list (Z * (list (Z * option Z) * list (Z * option Z)))   (* submitted batches by tag *) }.
+
+(* the batch an introducer event reports against the calls the harness generated for it: the same
+   ids / keys, each with the outcome of the LAST call for it (bleve.Batch keeps one op per id) *)
+Definition ops_agree (calls : list (Z * option Z)) (b : list (Z * option Z)) : bool :=
+  forallb (fun p => mem_id (fst p) (map fst b)) calls
+  && forallb (fun p => mem_id (fst p) (map fst calls)
+                       && optZ_eqb (spec_apply_ops calls (fun _ => None) (fst p)) (snd p)) b.
+
+(* internal values after the first k batches in effect, by the spec (one call at a time) *)
+Definition ints_after (ieff : list (list (Z * option Z))) (k : nat) (key : Z) : option Z :=
+  spec_internal (concat (firstn k ieff)) key.
+
+Definition find_rec (ep : Z) (bolt : list brec) : option brec := find (fun b => br_epoch b =? ep) bolt.
+
+(* what a rollback point of epoch [ep] must be: [docs]/[ints] are the model's committed record of
+   that epoch AND the replay of the batches that record covers (either list may be empty) *)
+Definition point_ok (d : dstate) (eff : list batch) (ieff : list (list (Z * option Z)))
+                    (ep : Z) (docs ints : list (Z * option Z)) : bool :=
+  match find_rec ep (d_bolt d), assocZ ep (d_nb d) with
+  | Some b, Some k =>
+      match rec_root (d_segdocs d) (br_segs b) with
+      | Some rr =>
+          list_eqb pairZoZ_eqb (map (fun p => (fst p, root_lookup rr (fst p))) docs) docs
+          && list_eqb pairZoZ_eqb (map (fun p => (fst p, replay (firstn k eff) (fst p))) docs) docs
+          && list_eqb pairZoZ_eqb (map (fun p => (fst p, assoc_first (fst p) (br_int b))) ints) ints
+          && list_eqb pairZoZ_eqb (map (fun p => (fst p, ints_after ieff k (fst p))) ints) ints
+      | None => false
+      end
+  | _, _ => false
+  end.
 
 (* the segment files that must exist right now (C12): named by a committed snapshot, backing a
    segment of the current root, or scheduled for an online copy while present *)
@@ -60,6 +106,45 @@ Definition tag_key : Z := 999.
 Definition tag_of (iops : list (Z * option Z)) : option Z :=
   match assoc_first tag_key iops with Some (Some v) => Some v | _ => None end.
 
+(* the index rolled back to the point of [ep] accepts a write: the model, rolled back to that record
+   and recovered, accepts the introduction (in particular the new segment id is fresh: it is not
+   the name of a file a remaining record names), and the contents afterwards are the model's and
+   the replay of the covered batches followed by the new one *)
+Definition point_write_ok (d : dstate) (eff : list batch) (ep newsid : Z)
+                          (ops docs : list (Z * option Z)) : bool :=
+  match dstep d (DRollback ep) with
+  | Some d1 =>
+      match dstep d1 DRecover, assocZ ep (d_nb d) with
+      | Some d2, Some k =>
+          match dstep d2 (DCore (EIntroduce newsid (collapse ops) [])) with
+          | Some d3 =>
+              list_eqb pairZoZ_eqb (map (fun p => (fst p, root_lookup (root (d_core d3)) (fst p))) docs) docs
+              && list_eqb pairZoZ_eqb (map (fun p => (fst p, replay (firstn k eff ++ [collapse ops]) (fst p))) docs) docs
+          | None => false
+          end
+      | _, _ => false
+      end
+  | None => false
+  end.
+
+(* [x] with another model state; nothing else changes *)
+Definition set_d (x : xs) (d' : dstate) : xs :=
+  mkXs d' (x_eff x) (x_tags x) (x_ci x) (x_pi x) (x_req x) (x_ieff x) (x_sub x).
+
+(* the batch of an introducer event is the batch the harness submitted under that tag *)
+Definition sub_ok (x : xs) (ev : event) : bool :=
+  match ev with
+  | EIntroduce _ b io =>
+      match tag_of io with
+      | Some tg => match assocZ tg (x_sub x) with
+                   | Some (ops, iops) => ops_agree ops b && ops_agree iops io
+                   | None => false
+                   end
+      | None => true
+      end
+  | _ => true
+  end.
+
 Definition xstep (x : xs) (e : dtev) : option xs :=
   let d := x_d x in
   match e with
@@ -68,37 +153,39 @@ Definition xstep (x : xs) (e : dtev) : option xs :=
       | Some ev, Some s' =>
           match dstep d (DCore ev) with
           | Some d' =>
-              if st_eqb_root (d_core d') s'
+              if st_eqb_root (d_core d') s' && sub_ok x ev
               then Some (mkXs d' (match ev with EIntroduce _ b _ => x_eff x ++ [b] | _ => x_eff x end)
                               (match ev with
                                | EIntroduce _ _ io => match tag_of io with
                                                       | Some tg => (tg, d_batches d') :: x_tags x
                                                       | None => x_tags x end
-                               | _ => x_tags x end) (x_ci x) (x_pi x) (x_req x))
+                               | _ => x_tags x end) (x_ci x) (x_pi x) (x_req x)
+                              (match ev with EIntroduce _ _ io => x_ieff x ++ [io] | _ => x_ieff x end)
+                              (x_sub x))
               else None
           | None => None
           end
       | _, _ => None
       end
-  | XFile sid => option_map (fun d' => mkXs d' (x_eff x) (x_tags x) (x_ci x) (x_pi x) (x_req x)) (dstep d (DFileWritten sid))
+  | XFile sid => option_map (set_d x) (dstep d (DFileWritten sid))
   | XPrepare ep segs ints =>
-      option_map (fun d' => mkXs d' (x_eff x) (x_tags x) (x_ci x) (x_pi x) (x_req x))
+      option_map (set_d x)
         (dstep d (DPrepare (mkBrec ep (map (fun p => let '(i, _, del, _) := p in (i, del)) segs) ints)))
-  | XCommitIntent => Some (mkXs d (x_eff x) (x_tags x) true (x_pi x) (x_req x))
-  | XCommit => option_map (fun d' => mkXs d' (x_eff x) (x_tags x) false (x_pi x) (x_req x)) (dstep d DCommit)
-  | XPurgeIntent eps => Some (mkXs d (x_eff x) (x_tags x) (x_ci x) (Some eps) (x_req x))
+  | XCommitIntent => Some (mkXs d (x_eff x) (x_tags x) true (x_pi x) (x_req x) (x_ieff x) (x_sub x))
+  | XCommit => option_map (fun d' => mkXs d' (x_eff x) (x_tags x) false (x_pi x) (x_req x) (x_ieff x) (x_sub x)) (dstep d DCommit)
+  | XPurgeIntent eps => Some (mkXs d (x_eff x) (x_tags x) (x_ci x) (Some eps) (x_req x) (x_ieff x) (x_sub x))
   | XAck tg =>
       match assocZ tg (x_tags x) with
-      | Some k => option_map (fun d' => mkXs d' (x_eff x) (x_tags x) (x_ci x) (x_pi x) (x_req x)) (dstep d (DAck k))
+      | Some k => option_map (set_d x) (dstep d (DAck k))
       | None => None
       end
-  | XPurge eps => option_map (fun d' => mkXs d' (x_eff x) (x_tags x) (x_ci x) None (x_req x)) (dstep d (DPurgeBolt eps))
-  | XRemoveZap sid => option_map (fun d' => mkXs d' (x_eff x) (x_tags x) (x_ci x) (x_pi x) (x_req x)) (dstep d (DRemoveZap sid))
-  | XMergeAbort id => option_map (fun d' => mkXs d' (x_eff x) (x_tags x) (x_ci x) (x_pi x) (x_req x)) (dstep d (DMergeAbort id))
-  | XCopyStart => option_map (fun d' => mkXs d' (x_eff x) (x_tags x) (x_ci x) (x_pi x) (x_req x)) (dstep d DCopyStart)
-  | XCopyEnd sids => option_map (fun d' => mkXs d' (x_eff x) (x_tags x) (x_ci x) (x_pi x) (x_req x)) (dstep d (DCopyEnd sids))
-  | XCrash => option_map (fun d' => mkXs d' (x_eff x) (x_tags x) false None []) (dstep d DCrash)
-  | XRollback ep => option_map (fun d' => mkXs d' (x_eff x) (x_tags x) (x_ci x) (x_pi x) (x_req x)) (dstep d (DRollback ep))
+  | XPurge eps => option_map (fun d' => mkXs d' (x_eff x) (x_tags x) (x_ci x) None (x_req x) (x_ieff x) (x_sub x)) (dstep d (DPurgeBolt eps))
+  | XRemoveZap sid => option_map (set_d x) (dstep d (DRemoveZap sid))
+  | XMergeAbort id => option_map (set_d x) (dstep d (DMergeAbort id))
+  | XCopyStart => option_map (set_d x) (dstep d DCopyStart)
+  | XCopyEnd sids => option_map (set_d x) (dstep d (DCopyEnd sids))
+  | XCrash => option_map (fun d' => mkXs d' (x_eff x) (x_tags x) false None [] (x_ieff x) (x_sub x)) (dstep d DCrash)
+  | XRollback ep => option_map (set_d x) (dstep d (DRollback ep))
   | XRecover =>
       match dstep d DRecover with
       | Some d' =>
@@ -106,7 +193,8 @@ Definition xstep (x : xs) (e : dtev) : option xs :=
              deliberately discarded it (then d_acked is judged against the rollback point by the
              harness, which only acknowledges batches before it) *)
           let k := covered d in
-          Some (mkXs d' (firstn k (x_eff x)) (filter (fun p => Nat.leb (snd p) k) (x_tags x)) false None [])
+          Some (mkXs d' (firstn k (x_eff x)) (filter (fun p => Nat.leb (snd p) k) (x_tags x)) false None []
+                     (firstn k (x_ieff x)) (x_sub x))
       | None => None
       end
   | XObserve docs =>
@@ -124,7 +212,7 @@ Definition xstep (x : xs) (e : dtev) : option xs :=
           then Some x else None
       | _, _ => None
       end
-  | XDirBegin => Some (mkXs d (x_eff x) (x_tags x) (x_ci x) (x_pi x) (required_files d))
+  | XDirBegin => Some (mkXs d (x_eff x) (x_tags x) (x_ci x) (x_pi x) (required_files d) (x_ieff x) (x_sub x))
   | XDirEnd ids =>
       (* a file that had to exist when the listing began and still has to exist now was there
          all along, so the listing must contain it *)
@@ -135,6 +223,25 @@ Definition xstep (x : xs) (e : dtev) : option xs :=
       if forallb (fun id => mem_id id ids) (required_files d)
          && forallb (fun id => mem_id id (flat_map named_by (d_bolt d))) ids
       then Some x else None
+  | XSubmit tg ops iops =>
+      Some (mkXs d (x_eff x) (x_tags x) (x_ci x) (x_pi x) (x_req x) (x_ieff x) ((tg, (ops, iops)) :: x_sub x))
+  | XObserveInt ints =>
+      (* model = implementation, and both = the internal calls of the batches in effect, replayed *)
+      if d_up d
+         && list_eqb pairZoZ_eqb (map (fun p => (fst p, assoc_first (fst p) (internal (d_core d)))) ints) ints
+         && list_eqb pairZoZ_eqb (map (fun p => (fst p, ints_after (x_ieff x) (length (x_ieff x)) (fst p))) ints) ints
+      then Some x else None
+  | XRollbackPoints pts =>
+      (* offline.  Exactly the committed records, newest first; every point reports the internal
+         values of ITS record, which are those of the state after the batches that record covers *)
+      if negb (d_up d)
+         && list_eqb Z.eqb (map fst pts) (rev (map br_epoch (d_bolt d)))
+         && forallb (fun p => point_ok d (x_eff x) (x_ieff x) (fst p) [] (snd p)) pts
+      then Some x else None
+  | XPointState ep docs ints =>
+      if negb (d_up d) && point_ok d (x_eff x) (x_ieff x) ep docs ints then Some x else None
+  | XPointWrite ep newsid ops docs =>
+      if negb (d_up d) && point_write_ok d (x_eff x) ep newsid ops docs then Some x else None
   end.
 
 (* at a crash: the unlogged completions that may have happened just before it *)
@@ -209,7 +316,7 @@ Definition check_kill (ops1 : list (list (Z * option Z))) (lo hi : nat) (obs1 : 
                     && list_eqb pairZoZ_eqb (map (fun p => (fst p, replay (firstn k b1 ++ b2) (fst p))) obs2) obs2)
           (seq lo (S (hi - lo))).
 
-Definition xinit : xs := mkXs dinit [] [] false None [].
+Definition xinit : xs := mkXs dinit [] [] false None [] [] [].
 
 Definition dcheck (c : dcase) : bool :=
   match c with
